@@ -483,8 +483,23 @@ def boundary_summary(P, g):
 
 def discharge_str_index(site):
     f, c = site["f"], site["call"]
-    S = fmt_sym(strip(f.sym_operand(c.args[0])), maxdepth=D)
-    rng = strip(f.sym_operand(c.args[1]))
+    ok, why = _discharge_str_index(f, site["bb"], f.sym_operand(c.args[0]), f.sym_operand(c.args[1]))
+    if not ok:
+        # offsets handed to a private helper by its only caller are judged with the caller's argument values, under the guards
+        # of the call site (`fn evaluate_binary_at(expr, pos, ..)` called with `pos` = the operator position just found)
+        r0 = _in_caller(f.prog, f, f.sym_operand(c.args[0]))
+        r1 = _in_caller(f.prog, f, f.sym_operand(c.args[1]))
+        if r0 and r1:
+            ok2, why2 = _discharge_str_index(r0[0], r0[1].bb, r0[2], r1[2])
+            if ok2:
+                return True, why2 + " (arguments of its only caller %s)" % r0[0].short_name
+    return ok, why
+
+
+def _discharge_str_index(f, site_bb, recv_sym, rng_sym):
+    site = {"bb": site_bb}
+    S = fmt_sym(strip(recv_sym), maxdepth=D)
+    rng = strip(rng_sym)
     if rng[0] != "agg":
         return False, "index expression is not a range literal"
     kind = rng[1].rsplit("::", 1)[1]
@@ -526,10 +541,20 @@ def discharge_str_index(site):
                 return False, "start is a match offset and end is len-k: their order is not established"
         elif a.get("scan") and b_.get("scan"):
             pass   # both bounds advance with one left-to-right scan: the cursor never passes the current index
+        elif "pos" in a and "pos" in b_ and _is_plus_const(bounds[1], bounds[0]):
+            pass   # pos .. pos + k: ordered by construction
         elif "pos" in a and "pos" in b_:
             if not _ordered_by_guard(f, site["bb"], bounds[0], bounds[1]):
                 return False, "two independent match offsets carry no order (no dominating comparison of the bounds)"
     return True, "; ".join(descs)
+
+
+def _is_plus_const(hi, lo):
+    h = strip(hi)
+    if h[0] == "field" and h[2] == "0" and strip(h[1])[0] == "bin":
+        h = strip(h[1])
+    return h[0] == "bin" and h[1] in ("Add", "AddWithOverflow") and strip(h[3])[0] == "const" and isinstance(strip(h[3])[2], int) and strip(h[3])[2] >= 0 \
+        and fmt_sym(strip(h[2]), maxdepth=D) == fmt_sym(strip(lo), maxdepth=D)
 
 
 def _explicit_len(f, bb, S):
@@ -970,8 +995,11 @@ def _depth_guard(P, names):
     constant whose failing edge returns without recursing. Returns (bound, fn, line) or None."""
     import re as _re
     scc = set(names)
-    for name in names:
-        f = P.fns[name]
+    cands = [P.fns[name] for name in names]
+    # second chance with helpers spliced in: the counting may sit in a private helper (`parse_one_level_deeper(Self::parse_x)`)
+    cands += [P.inlined(f) for f in cands if f.kind != "closure" and P.inlined(f) is not f]
+    for f in cands:
+        name = f.name
         for b in sorted(f.normal_blocks()):
             if f.term(b)[2] != "switch" or not A.bool_edges(f, b):
                 continue
@@ -1071,8 +1099,11 @@ def _counter_counts(P, names, g, gb, const_left):
     if var[0] == "field":
         fld, owner = var[2], var[3]
         ok_inc = False
+        viewed = getattr(g, "inlined_from", None)
         for name in names:
             f = P.fns[name]
+            if viewed and f.kind != "closure":
+                f = P.inlined(f)
             for (bb, j, st) in A.stores_to_field(f, fld, owner):
                 if j < 0:
                     return False
